@@ -174,3 +174,45 @@ func c01charlen(c *core.Ctx) {
 		c.Check(runes && !bytesLen, R, fn, c.P.Pos(d.Decl.Pos()), fn+" counts characters", core.F("the length is taken in bytes (rune count used: %v, byte length used: %v): non-ASCII examples get the wrong verdict", runes, bytesLen))
 	}
 }
+
+// c01diamond: the recursion guard of the allowed-JSON-types walk is path-scoped.
+func c01diamond(c *core.Ctx) {
+	const R = "C01.diamond"
+	c.Rule(R, "checkSchema.collectAllowedJsonTypes reports a recursion when it meets a type name that is in its visited set; because a hit is an ERROR (not a silent skip), the set must describe the current path only: the name is deleted from the set after the recursive call on it returns. A cumulative set reports a diamond of references (`or: [\"@a\",\"@c\"]` with @a = `{type:\"@c\"}`) as a recursion and rejects a valid example")
+	c.Floor(R, 1)
+	d := c.P.FindDecl("(*notations/jschema/checker.checkSchema).collectAllowedJsonTypes")
+	if d == nil {
+		c.Unresolved(R, "(*notations/jschema/checker.checkSchema).collectAllowedJsonTypes")
+		return
+	}
+	ok := false
+	ast.Inspect(d.Decl.Body, func(n ast.Node) bool {
+		blk, isB := n.(*ast.BlockStmt)
+		if !isB {
+			return true
+		}
+		recIdx, key := -1, ""
+		for i, st := range blk.List {
+			if es, isE := st.(*ast.ExprStmt); isE {
+				if call, isC := es.X.(*ast.CallExpr); isC {
+					f := core.ExprStr(call.Fun)
+					if strings.HasSuffix(f, ".collectAllowedJsonTypes") {
+						recIdx = i
+					}
+					if f == "delete" && recIdx >= 0 && i > recIdx && len(call.Args) == 2 && strings.HasSuffix(core.ExprStr(call.Args[0]), ".foundTypeNames") {
+						if key == "" || core.ExprStr(call.Args[1]) == key {
+							ok = true
+						}
+					}
+				}
+			}
+			if as, isA := st.(*ast.AssignStmt); isA && len(as.Lhs) == 1 {
+				if ix, isI := as.Lhs[0].(*ast.IndexExpr); isI && strings.HasSuffix(core.ExprStr(ix.X), ".foundTypeNames") {
+					key = core.ExprStr(ix.Index)
+				}
+			}
+		}
+		return true
+	})
+	c.Check(ok, R, "collectAllowedJsonTypes:path-scoped", c.P.Pos(d.Decl.Pos()), "the visited set of collectAllowedJsonTypes is shrunk after each recursive call", "the set only grows: a type referenced over two different branches is reported as a recursion (code 1303) although no cycle exists")
+}
